@@ -99,6 +99,13 @@ TARGET_KINDS = {
 POSITIONS = ["property", "item", "mapvalue", "oneof", "anyof", "allof", "nested", "mapping", "opparam", "pathparam", "reqbody", "respbody", "respbody2", "inlinedup", "headerparam", "nesteditem"]
 
 
+# responses / request bodies under every status class x media category: `media:<where>:<status>:<media type>`
+MEDIA_TYPES = ["application/json", "text/plain", "application/octet-stream", "image/png", "application/pdf", "application/xml", "text/event-stream",
+               "application/x-www-form-urlencoded", "multipart/form-data", "application/vnd.api+json", "text/csv"]
+MEDIA_STATUSES = ["200", "201", "404", "422", "default", "4XX", "5XX", "302"]
+MEDIA_POSITIONS = ["media:resp:%s:%s" % (st, mt) for st in MEDIA_STATUSES for mt in MEDIA_TYPES] + ["media:req::%s" % mt for mt in MEDIA_TYPES]
+
+
 def copy_schema(s):
     import copy
     return copy.deepcopy(s)
@@ -140,6 +147,13 @@ def position_spec(position, tkind):
     elif position == "respbody2":
         # a SECOND media type of the same response, with a schema reachable from nowhere else
         op["responses"]["200"]["content"]["text/plain"] = {"schema": T}
+    elif position.startswith("media:"):
+        _, where, st, mt = position.split(":", 3)
+        if where == "resp":
+            op["responses"].setdefault(st, {"description": "r"}).setdefault("content", {})[mt] = {"schema": T}
+        else:
+            item = {"post": op}
+            op["requestBody"] = {"required": True, "content": {mt: {"schema": T}}}
     elif position == "headerparam":
         op["parameters"] = [{"name": "X-F", "in": "header", "schema": T}]
     elif position == "nesteditem":
